@@ -392,6 +392,7 @@ func R20(p *core.Prog) *core.Result {
 	}
 	omitFirst(p, r)
 	tagSkipName(p, r)
+	registryKeyDetermines(p, r)
 	resolverIdentity(p, r)
 	nilFolder(p, r)
 	return r
